@@ -575,6 +575,23 @@ func (w *Writer) WriteCompressed(refs []Reference, objects ...Object) error {
 		return nil
 	}
 
+	// A reference which is in use, or which is named twice, is refused before
+	// anything is recorded: a call refused for its arguments leaves no
+	// cross-reference entries behind.
+	seen := make(map[uint32]bool, len(refs))
+	for _, ref := range refs {
+		if _, used := w.xref[ref.Number()]; used || seen[ref.Number()] {
+			return fmt.Errorf("Writer.WriteCompressed: %w", errDuplicateRef)
+		}
+		seen[ref.Number()] = true
+	}
+	// The object streams get numbers which differ from the given ones.
+	for _, ref := range refs {
+		if w.nextRef <= ref.Number() {
+			w.nextRef = ref.Number() + 1
+		}
+	}
+
 	if !w.outputOptions.HasAny(optObjStm) {
 		// If object streams are disabled, write the objects directly.
 		for i, obj := range objects {
